@@ -15,6 +15,7 @@ ASSUMPTIONS = ["CPython ast parser", "Python if/return chains are first-match", 
                "sym.py constant folding of >> & == on int literals"]
 
 def run(chk, program, tier):
+    chk.rule('ENC-STATE', 'encoder keeps no state between messages besides the fast-packet sequence counter')
     chk.rule('DISP', 'dispatcher arms vs database order and match fields')
     chk.rule('DISP-REACH', 'leaf decoders of multi-definition PGNs referenced only by their dispatcher')
     chk.rule('ENC-NAME', 'one encoder per definition under the name the encoder lookup forms')
@@ -22,6 +23,7 @@ def run(chk, program, tier):
     nd, na, nc = R.disp(chk, program)
     R.disp_reach(chk, program)
     E.enc_name(chk, program)
+    E.enc_state(chk, program)
     R.gen_dec(chk, program, slots=[], rule='GEN-DEC', with_msg=True, with_flow=False)
     chk.unit('programs', nd)
     chk.floor('dispatchers', nd, 24)
